@@ -15,6 +15,7 @@ let n_of_int (i : int) : coq_N = if i = 0 then N0 else Npos (pos_of_int i)
 let rec int_of_pos (p : positive) : int =
   match p with Coq_xH -> 1 | Coq_xO q -> 2 * int_of_pos q | Coq_xI q -> 2 * int_of_pos q + 1
 let int_of_n (n : coq_N) : int = match n with N0 -> 0 | Npos p -> int_of_pos p
+let rec nat_of_int (i : int) : Datatypes.nat = if i <= 0 then Datatypes.O else Datatypes.S (nat_of_int (i - 1))
 (* decimal printing of N beyond 62 bits: via strings of digits *)
 let string_of_n (n : coq_N) : string =
   (* numbers here are < 2^64; use unsigned printing through Int64 when needed *)
@@ -167,7 +168,14 @@ let cmd_spec (hist : string) (fout : string) (eout : string) : unit =
     let t = S.trim line in
     if t = "" || (S.get t (0)) = '#' then ()
     else match parse_cmd line with
-      | None -> output_string fo (line ^ "\n"); output_string eo "*\n"
+      | None ->
+          output_string fo (line ^ "\n");
+          if t = "snap" then begin
+            (* what an independent decoder must find in the file right now: the committed state *)
+            let c = (!st).Spec.d_committed in
+            output_string eo ("snap= rootnext=" ^ string_of_n (Spec.b_next c) ^ " dump:"
+                              ^ S.concat "" (L.map fmt_dump (Spec.dump_of c)) ^ "\n")
+          end else output_string eo "*\n"
       | Some c ->
           let (st', r) = Spec.step !st c in
           (match r with
@@ -204,8 +212,95 @@ let cmd_select (ps : int) (files : string list) : unit =
     let r = Meta.select_slots (n_of_int ps) (Meta.read_slot ct (pg 0)) (Meta.read_slot ct (pg 1)) in
     Printf.printf "%s %s\n" f (fmt_sel r)) files
 
+let reader_of_string (s : string) : Codec.reader =
+  fun off len ->
+    let o = int_of_n off and l = int_of_n len in
+    if o + l <= S.length s then Some (bytes_of_string (S.sub s o l)) else None
+
+let fmt_res (f : 'a -> string) (r : 'a Codec.res) : string =
+  match r with Codec.Ok a -> f a | Codec.Bad m -> "bad:" ^ S.map (fun c -> if c = ' ' then '_' else c) (string_of_coq m)
+
+let fmt_ids (l : coq_N list) : string = S.concat "," (L.map string_of_n l)
+
+(* inv <pagesize> <file>...: for every file print
+   <file> inv:<ok|bad:msg> meta:<...> free:<ids> dump:<...> *)
+let cmd_inv (ps : int) (files : string list) : unit =
+  L.iter (fun f ->
+    let s = read_file f in
+    let rd = reader_of_string s in
+    let p = n_of_int ps in
+    let inv = fmt_res (fun _ -> "ok") (Tree.inv_check rd p) in
+    let o = Tree.open_db rd p in
+    let meta = fmt_res (fun o -> fmt_sel (Meta.SelMeta o.Tree.o_meta) ^ " free:" ^ fmt_ids o.Tree.o_free
+                                 ^ " flrun:" ^ fmt_ids o.Tree.o_flrun) o in
+    let dump = fmt_res (fun (nx, d) -> "rootnext=" ^ string_of_n nx ^ " dump:" ^ S.concat "" (L.map fmt_dump d)) (Tree.logical rd p) in
+    let reach = match o with
+      | Codec.Ok o -> fmt_res fmt_ids (Tree.bucket_pages (nat_of_int (int_of_n o.Tree.o_meta.Meta.m_np)) rd p o.Tree.o_meta.Meta.m_np o.Tree.o_meta.Meta.m_root)
+      | Codec.Bad _ -> "-" in
+    Printf.printf "%s inv:%s %s reach:%s %s\n" f inv meta reach dump) files
+
+(* ---------- cursor model on a real file (C08 / C07 correspondence) ---------- *)
+let rec find_bucket (rd : Codec.reader) (p : coq_N) (np : coq_N) (root : coq_N) (path : string list) : Tree.tree Codec.res =
+  match Tree.build_tree (nat_of_int (int_of_n np)) rd p root with
+  | Codec.Bad m -> Codec.Bad m
+  | Codec.Ok t ->
+      (match path with
+       | [] -> Codec.Ok t
+       | nm :: rest ->
+           let name = tok nm in
+           let rec look (l : Codec.lent list) =
+             match l with
+             | [] -> Codec.Bad String.EmptyString
+             | Codec.EBk (k, r, _) :: l' -> if Bytes.beq k name then find_bucket rd p np r rest else look l'
+             | _ :: l' -> look l' in
+           look (Tree.flatten t))
+
+let fmt_cur (r : Spec.item list Cursor.cur_res) : string =
+  match r with Cursor.CPanic -> " PANIC" | Cursor.CVal l -> fmt_items l
+
+(* cursor <pagesize> <file> <ops>: ops are `scan P`, `seek P k`, `range P lk lo hk hi`, `get P k`,
+   `buckets P`, `kvpairs P` with P = bucket path (names joined by '/') *)
+let cmd_cursor (ps : int) (file : string) (ops : string) : unit =
+  let s = read_file file in
+  let rd = reader_of_string s in
+  let p = n_of_int ps in
+  match Tree.open_db rd p with
+  | Codec.Bad m -> print_endline ("open:bad:" ^ string_of_coq m)
+  | Codec.Ok o ->
+      let m = o.Tree.o_meta in
+      L.iter (fun line ->
+        let w = L.filter (fun x -> x <> "") (S.split_on_char ' ' (S.trim line)) in
+        match w with
+        | [] -> ()
+        | op :: path :: args ->
+            let path = L.filter (fun x -> x <> "") (S.split_on_char '/' path) in
+            (match find_bucket rd p m.Meta.m_np m.Meta.m_root path with
+             | Codec.Bad _ -> print_endline "nobucket"
+             | Codec.Ok t ->
+                 (match op, args with
+                  | "scan", [] -> print_endline ("items:" ^ fmt_cur (Cursor.scan t))
+                  | "buckets", [] ->
+                      (match Cursor.scan t with
+                       | Cursor.CPanic -> print_endline "items: PANIC"
+                       | Cursor.CVal l -> print_endline ("items:" ^ fmt_items (L.filter (fun i -> match i with Spec.IBk _ -> true | _ -> false) l)))
+                  | "kvpairs", [] ->
+                      (match Cursor.scan t with
+                       | Cursor.CPanic -> print_endline "items: PANIC"
+                       | Cursor.CVal l -> print_endline ("items:" ^ fmt_items (L.filter (fun i -> match i with Spec.IKv _ -> true | _ -> false) l)))
+                  | "seek", [k] ->
+                      let (ex, r) = Cursor.seek_scan t (tok k) in
+                      print_endline ("seek:" ^ (if ex then "1" else "0") ^ ":" ^ fmt_cur r)
+                  | "range", [lk; lo; hk; hi] ->
+                      print_endline ("items:" ^ fmt_cur (Cursor.range_scan t (bound_of lk lo) (bound_of hk hi)))
+                  | "get", [k] ->
+                      print_endline (match Cursor.get t (tok k) with None -> "opt:none" | Some i -> "opt:" ^ fmt_item i)
+                  | _ -> print_endline "badop"))
+        | _ -> print_endline "badop") (read_lines ops)
+
 let () =
   match Array.to_list Sys.argv with
   | _ :: "spec" :: hist :: fout :: eout :: _ -> cmd_spec hist fout eout
   | _ :: "select" :: ps :: files -> cmd_select (int_of_string ps) files
-  | _ -> prerr_endline "usage: monitor spec|select ..."; exit 2
+  | _ :: "inv" :: ps :: files -> cmd_inv (int_of_string ps) files
+  | _ :: "cursor" :: ps :: file :: ops :: _ -> cmd_cursor (int_of_string ps) file ops
+  | _ -> prerr_endline "usage: monitor spec|select|inv|cursor ..."; exit 2
